@@ -21,7 +21,7 @@ func GenerateScalarSuperSetRule(in profile.ScalarSetRule, iriExpander *misc.IriE
 	rego = append(rego, fmt.Sprintf("%s_array = %s with data.sourceNode as %s", inValuesTestVariable, pathResult.rule, in.Variable.Name))
 	rego = append(rego, fmt.Sprintf("%s_scalar = %s_array[_]", inValuesTestVariable, inValuesTestVariable))
 	rego = append(rego, fmt.Sprintf("%s = as_string(%s_scalar)", inValuesTestVariable, inValuesTestVariable))
-	rego = append(rego, fmt.Sprintf("%s = { \"%s\"}", inValuesVariable, strings.Join(in.Argument, "\",\"")))
+	rego = append(rego, fmt.Sprintf("%s = { \"%s\"}", inValuesVariable, strings.Join(regoStringList(in.Argument), "\",\"")))
 	// Add the validation
 	if in.Negated {
 		rego = append(rego, fmt.Sprintf("%s[%s]", inValuesVariable, inValuesTestVariable))
@@ -45,4 +45,13 @@ func GenerateScalarSuperSetRule(in profile.ScalarSetRule, iriExpander *misc.IriE
 		Variable: inValuesTestVariable,
 	}
 	return []SimpleRegoResult{r}
+}
+
+// regoStringList escapes list values so that each can be pasted between double quotes in the generated code
+func regoStringList(values []string) []string {
+	escaped := make([]string, len(values))
+	for i, v := range values {
+		escaped[i] = misc.RegoStringContentNoTemplate(v)
+	}
+	return escaped
 }
